@@ -1,4 +1,179 @@
-import YncaVerif.Lemmas.L4Defs
+import YncaVerif.Lemmas.L4Basic
 /-! Helper lemmas for C20. -/
 namespace Ynca.L4
+
+theorem ringAdd_drop {α : Type} (n : Nat) (ys : List α) (x : α) :
+    ringAdd n (ys.drop (ys.length - n)) x = (ys ++ [x]).drop ((ys ++ [x]).length - n) := by
+  unfold ringAdd
+  have h : ys.drop (ys.length - n) ++ [x] = (ys ++ [x]).drop (ys.length - n) := by
+    rw [List.drop_append_of_le_length (by omega)]
+  rw [h, List.drop_drop]
+  congr 1
+  simp only [List.length_drop, List.length_append, List.length_singleton]
+  omega
+
+theorem ring_is_suffix_gen {α : Type} (n : Nat) (xs ys : List α) :
+    xs.foldl (ringAdd n) (ys.drop (ys.length - n)) = (ys ++ xs).drop ((ys ++ xs).length - n) := by
+  induction xs generalizing ys with
+  | nil => simp
+  | cons x xs ih =>
+    simp only [List.foldl_cons]
+    rw [ringAdd_drop, ih (ys ++ [x])]
+    simp
+
+theorem ring_is_suffix {α : Type} (n : Nat) (xs : List α) :
+    xs.foldl (ringAdd n) [] = xs.drop (xs.length - n) := by
+  simpa using ring_is_suffix_gen n xs []
+
+/-! ### sends -/
+
+/-- the `Send` entries that are logged but not (yet) written, per sender pc -/
+def pendOK : SPc → List String → Prop
+  | .lockWait t _, e => e = [t]
+  | .writing t _, e => e = [t]
+  | .dead, e => e.length ≤ 1
+  | _, e => e = []
+
+def SendsInv (s : St) : Prop := ∃ extra, logSends s = wireTexts s ++ extra ∧ pendOK s.spc extra
+
+theorem sendsInv_step (P : Params) (s s' : St) (l : Label) (o : Option Obs) (hr : Reachable P s)
+    (hi : SendsInv s) (hs : step P s l = some (s', o)) : SendsInv s' := by
+  have ⟨extra, h1, h2⟩ := hi
+  cases step_kind P s s' l o hs with
+  | tick d h => subst h; exact hi
+  | sender o h =>
+    cases stepS_kind P s s' o h with
+    | get dl m q hp hq h _ => subst h; rw [hp] at h2; exact ⟨extra, h1, h2⟩
+    | timeout dl hp hq hd h _ => subst h; rw [hp] at h2; exact ⟨extra, h1, h2⟩
+    | putKA hp h _ => subst h; rw [hp] at h2; exact ⟨extra, h1, h2⟩
+    | exit hp h _ => subst h; rw [hp] at h2; exact ⟨extra, h1, h2⟩
+    | flag hp h _ => subst h; rw [hp] at h2; exact ⟨extra, h1, h2⟩
+    | classify i t hp h _ => subst h; rw [hp] at h2; exact ⟨extra, h1, h2⟩
+    | log t i hp h _ =>
+      subst h; rw [hp] at h2
+      simp only [pendOK] at h2; subst h2
+      refine ⟨[t], ?_, rfl⟩
+      simp only [logSends, wireTexts, List.append_nil] at h1 ⊢
+      rw [← h1]; simp
+    | lock t i hp h _ => subst h; rw [hp] at h2; exact ⟨extra, h1, h2⟩
+    | die t i hp h _ =>
+      subst h; rw [hp] at h2
+      simp only [pendOK] at h2; subst h2
+      exact ⟨[t], h1, by simp [pendOK]⟩
+    | write t i hp h _ =>
+      subst h; rw [hp] at h2
+      simp only [pendOK] at h2; subst h2
+      refine ⟨[], ?_, rfl⟩
+      simp only [logSends, wireTexts, List.append_nil, List.map_append, List.map_cons, List.map_nil] at h1 ⊢
+      exact h1
+    | unlock hp h _ => subst h; rw [hp] at h2; exact ⟨extra, h1, h2⟩
+    | wake u hp hu h _ => subst h; rw [hp] at h2; exact ⟨extra, h1, h2⟩
+  | submit t text hq h =>
+    subst h
+    exact ⟨extra, by rw [logSends_setUpc, wireTexts_setUpc]; exact h1, by rw [setUpc_spc]; exact h2⟩
+  | made0 hr0 h =>
+    subst h
+    have he := earlyInv P s hr (.inr hr0)
+    exact ⟨[], by simp [logSends, wireTexts, he.2.2.2.2.1, he.2.2.2.2.2.1], rfl⟩
+  | enq it r' _ _ _ h => subst h; exact hi
+  | drain x q _ _ h => subst h; exact hi
+  | split l rest _ h => subst h; exact hi
+  | logRecv l _ h =>
+    subst h
+    refine ⟨extra, ?_, h2⟩
+    simp only [logSends, wireTexts] at h1 ⊢
+    rw [← h1]; simp
+  | env hc hre => exact ⟨extra, by rw [hc.logSends, hc.wireTexts]; exact h1, by rw [hc.spc]; exact h2⟩
+
+theorem sendsInv (P : Params) (s : St) (h : Reachable P s) : SendsInv s :=
+  reachable_induction' P SendsInv ⟨[], by simp [logSends, wireTexts], rfl⟩ (sendsInv_step P) s h
+
+theorem pendOK_length (p : SPc) (e : List String) (h : pendOK p e) : e.length ≤ 1 := by
+  cases p <;> simp_all [pendOK]
+
+theorem sends_faithful (P : Params) (s : St) (h : Reachable P s) :
+    ∃ extra, logSends s = wireTexts s ++ extra ∧ extra.length ≤ 1 := by
+  obtain ⟨extra, h1, h2⟩ := sendsInv P s h
+  exact ⟨extra, h1, pendOK_length _ _ h2⟩
+
+theorem write_was_logged (P : Params) (s s' : St) (t : String) (hr : Reachable P s)
+    (h : step P s .s = some (s', some (.write t))) : t ∈ logSends s := by
+  obtain ⟨extra, h1, h2⟩ := sendsInv P s hr
+  have hk := stepS_kind P s s' _ (by simpa only [step] using h)
+  cases hk with
+  | write t' i hp _ ho =>
+    simp only [Option.some.injEq, Obs.write.injEq] at ho
+    subst ho
+    rw [hp] at h2
+    simp only [pendOK] at h2
+    rw [h1, h2]; simp
+  | get _ _ _ _ _ _ ho => simp at ho
+  | timeout _ _ _ _ _ ho => simp at ho
+  | putKA _ _ ho => simp at ho
+  | exit _ _ ho => simp at ho
+  | flag _ _ ho => simp at ho
+  | classify _ _ _ _ ho => simp at ho
+  | log _ _ _ _ ho => simp at ho
+  | lock _ _ _ _ ho => simp at ho
+  | die _ _ _ _ ho => simp at ho
+  | unlock _ _ ho => simp at ho
+  | wake _ _ _ _ ho => simp at ho
+
+/-! ### receives -/
+
+def RecvInv (s : St) : Prop :=
+  s.rxLines = logRecvs s ++ (match isLine0 s.rpc with | some l => [l] | none => [])
+
+theorem RecvInv.congr {s s' : St} (hi : RecvInv s) (h1 : s'.rxLines = s.rxLines) (h2 : s'.log = s.log)
+    (h3 : isLine0 s'.rpc = isLine0 s.rpc) : RecvInv s' := by
+  unfold RecvInv logRecvs at *
+  rw [h1, h2, h3]; exact hi
+
+theorem recvInv_step (P : Params) (s s' : St) (l : Label) (o : Option Obs)
+    (hi : RecvInv s) (hs : step P s l = some (s', o)) : RecvInv s' := by
+  cases step_kind P s s' l o hs with
+  | tick d h => subst h; exact hi
+  | sender o h =>
+    cases stepS_kind P s s' o h with
+    | log t i hp h _ =>
+      subst h
+      unfold RecvInv logRecvs at *
+      simp only [List.filterMap_append, List.filterMap_cons, List.filterMap_nil, List.append_nil]
+      exact hi
+    | get _ _ _ _ _ h _ => subst h; exact hi
+    | timeout _ _ _ _ h _ => subst h; exact hi
+    | putKA _ h _ => subst h; exact hi
+    | exit _ h _ => subst h; exact hi
+    | flag _ h _ => subst h; exact hi
+    | classify _ _ _ h _ => subst h; exact hi
+    | lock _ _ _ h _ => subst h; exact hi
+    | die _ _ _ h _ => subst h; exact hi
+    | write _ _ _ h _ => subst h; exact hi
+    | unlock _ h _ => subst h; exact hi
+    | wake _ _ _ h _ => subst h; exact hi
+  | submit t text hq h => subst h; exact hi.congr (by simp) (by simp) (by simp)
+  | made0 hr0 h => subst h; exact hi.congr rfl rfl (by simp [hr0, isLine0])
+  | enq it r' _ hre _ h => subst h; exact hi.congr rfl rfl hre.line0_eq
+  | drain x q _ _ h => subst h; exact hi
+  | split l rest hr0 h =>
+    subst h
+    unfold RecvInv at *
+    simp only [hr0, isLine0, List.append_nil] at hi
+    simp only [isLine0]
+    rw [hi]; rfl
+  | logRecv l hr0 h =>
+    subst h
+    unfold RecvInv at *
+    simp only [hr0, isLine0] at hi
+    simp only [isLine0, List.append_nil, logRecvs, List.filterMap_append, List.filterMap_cons,
+      List.filterMap_nil]
+    exact hi
+  | env hc hre => exact hi.congr hc.rxLines hc.log hre.line0_eq
+
+theorem receives_faithful (P : Params) (s : St) (h : Reachable P s) :
+    ∃ extra, s.rxLines = logRecvs s ++ extra ∧ extra.length ≤ 1 := by
+  have hi := reachable_induction P RecvInv (by simp [RecvInv, logRecvs, isLine0]) (recvInv_step P) s h
+  refine ⟨_, hi, ?_⟩
+  split <;> simp
+
 end Ynca.L4
